@@ -4,7 +4,7 @@
    H qdd + N = ID(qdd), M^-1 tau and the L^T L factorisation are decided by correspondence and the L3 oracle
    (H_spec from the first-principles inverse dynamics, residuals of the factorisation and of the solves). *)
 From Coq Require Import List Arith.
-From RV Require Import Scalar Laws LinAlg3 Spatial ListArr ModelDef JointDef KinDef LinDef DynDef ConsDef C14Thm WsLemmas KinThm DynThm NleThm C04Thm UtilDef EnergyThm SymThm CrbaThm CrbaThm2.
+From RV Require Import Scalar Laws LinAlg3 Spatial ListArr ModelDef JointDef KinDef LinDef DynDef ConsDef C14Thm WsLemmas KinThm DynThm NleThm C04Thm UtilDef EnergyThm SymThm CrbaThm CrbaThm2 CrbaThm3.
 Section P.
   Context {T : Type} (O : Ops T) {FL : FieldLaws O}.
   Theorem C03_nonlinear_effects_is_inverse_dynamics_at_zero_acceleration
@@ -72,6 +72,21 @@ Section P2.
     let H := snd (crba O M (ukc_q O M w0 q) q (zerosM O n n) false) in
     omul O (ohalf O) (odot O qd (mvmul O H qd)) = snd (calc_kinetic_energy O M w1 q qd true).
   Proof. intros W C J L G0 G1. exact (crba_half_quadratic_form_is_kinetic_energy O M q W C J qd L w0 w1 G0 G1). Qed.
+  (* H = sum over the bodies of J_i^T I_i J_i, in bilinear form: for all generalized velocities x, y
+        x^T H y = sum_i v_i(x) . (I_i v_i(y)),
+     where v_i(x) is the body velocity generated by x -- by C05_spatial_jacobian_times_qdot_is_body_velocity exactly
+     what the body spatial Jacobian maps x to: mvmul (G_i(q)) x = svlist (v_i(x)).  (Polarisation of the quadratic
+     statement with the symmetry of H; needs 1 + 1 <> 0 in the scalar field.) *)
+  Theorem C03_inertia_matrix_is_sum_of_JT_I_J (M : @Model T) q (w0 : @WS T) (x y : list T) : WF M ->
+    (forall i j, 0 < i < nbodies M -> 0 < j < nbodies M -> i <> j ->
+       is_custom (jkind (getJ M i)) = true -> is_custom (jkind (getJ M j)) = true -> jcust (getJ M i) <> jcust (getJ M j)) ->
+    (forall i, 0 < i < nbodies M -> joint_wf O M q i) -> o2 O <> o0 O -> Good O M w0 ->
+    length x = dof_count M -> length y = dof_count M ->
+    let n := dof_count M in
+    let H := snd (crba O M (ukc_q O M w0 q) q (zerosM O n n) false) in
+    odot O x (mvmul O H y) =
+    ComThm.bsum O (fun j => svdot O (vF O M q x j) (rbi_mulv O (getI O M j) (vF O M q y j))) (nbodies M).
+  Proof. intros W C J N2 G. exact (inertia_matrix_is_sum_JT_I_J O M q W C J N2 w0 G x y). Qed.
 End P2.
 Print Assumptions C03_nonlinear_effects_is_inverse_dynamics_at_zero_acceleration.
 Print Assumptions C03_nonlinear_effects_outward_pass.
@@ -79,3 +94,4 @@ Print Assumptions C03_inertia_matrix_symmetric.
 Print Assumptions C03_inertia_matrix_symmetric_after_position_update.
 Print Assumptions C03_inertia_matrix_quadratic_form_is_twice_kinetic_energy.
 Print Assumptions C03_half_qd_H_qd_is_CalcKineticEnergy.
+Print Assumptions C03_inertia_matrix_is_sum_of_JT_I_J.
